@@ -121,7 +121,7 @@ def run_model(cases, artifacts=True):
     return nskip
 
 
-def run_impl(cases, workdir, batch_size=6, profile="debug", compile_timeout=100, extra_parens=None,
+def run_impl(cases, workdir, batch_size=6, profile="debug", compile_timeout=150, extra_parens=None,
              run_timeout_ms=5000):
     """Compiles (real macro inside rustc) and runs. Fills c.impl, c.impl_runs, c.compile_error."""
     paths = build_repo(profile)
